@@ -13,7 +13,7 @@ EXPLANATION = (
     'RenameTempFileHandler, AfterDoneHandler) runs against a stub awscrt package (awscrt is not installed) whose '
     'S3Client.make_request records the request and hands the harness its on_done / on_progress.  A sequence of 3 (quick) '
     '/ 4 (thorough) submissions with SYMBOLIC kinds (upload from path, download to a path, download to a stream, '
-    'delete) and SYMBOLIC outcomes (success, error, cancelled by the user, failure while the request is built) is '
+    'delete) and SYMBOLIC outcomes (success, error, cancelled by the user, make_request raising, request serialization raising) is '
     'completed in a SYMBOLIC order; the fixed Semaphore(128) is replaced by a counting semaphore of 2 that pumps the '
     'stub event loop when a submitter would block.  Oracle: exactly one release per submission, permits back to the '
     'initial value at quiescence, on_done subscribers run before the done-callbacks-complete event is set, path '
@@ -198,8 +198,8 @@ class StubClient:
         self.n = 0
 
     def make_request(self, **kw):
-        i = self.n
         self.n += 1
+        i = kw['request'][2]        # the transfer this request belongs to
         out = self.loop.outcomes[i] if i < len(self.loop.outcomes) else 0
         if out == 3:
             raise ServiceError('request construction failed')
@@ -209,8 +209,12 @@ class StubClient:
 
 
 class Ser(C.BaseCRTRequestSerializer):
+    fail_ids = ()
+
     def serialize_http_request(self, t, future):
-        return ('req', t)
+        if future.meta.transfer_id in self.fail_ids:
+            raise ServiceError('request serialization failed')
+        return ('req', t, future.meta.transfer_id)
 
     def translate_crt_exception(self, e):
         return None
@@ -260,7 +264,7 @@ KINDS = ['upload', 'download-path', 'download-stream', 'delete']
 
 def sequence(n, k0, o0, k1, o1, k2, o2, k3, o3, x0, x1, x2, cancel_i, rename_fails):
     """n submissions; kind k_i in 0..3, outcome o_i in 0 (success) 1 (error) 2 (user cancels it) 3 (make_request
-    raises); x_j completion-order choices; cancel_i: which transfer the user cancels right after submitting it"""
+    raises) 4 (the request cannot be built: the serializer raises before make_request); x_j completion-order choices; cancel_i: which transfer the user cancels right after submitting it"""
     kinds = [k0, k1, k2, k3][:n]
     outs = [o0, o1, o2, o3][:n]
     loop = Loop([x0, x1, x2], outs)
@@ -276,7 +280,9 @@ def sequence(n, k0, o0, k1, o1, k2, o2, k3, o3, x0, x1, x2, cancel_i, rename_fai
         osu.rename_file = bad_rename
     # (passing osutil= to the constructor raises AttributeError in this version: the attribute is only set when the
     #  argument is None - outside C20; the harness installs the fake afterwards)
-    m = C.CRTTransferManager(StubClient(loop), Ser())
+    ser = Ser()
+    ser.fail_ids = tuple(i for i in range(n) if outs[i] == 4)
+    m = C.CRTTransferManager(StubClient(loop), ser)
     m._osutil = osu
     m._s3_args_creator._os_utils = osu
     sem = m._semaphore = PumpSemaphore(2, loop)
@@ -299,7 +305,7 @@ def sequence(n, k0, o0, k1, o1, k2, o2, k3, o3, x0, x1, x2, cancel_i, rename_fai
                 dest = '/d/dest%d' % i
                 f = m.download('bkt', 'k%d' % i, dest, subscribers=[s])
                 # the stub CRT "writes" the temp file when the request is made
-                if outs[i] != 3:
+                if outs[i] not in (3, 4):
                     fs.files[dest + '.TMPSUFFX'] = []
             elif kind == 'download-stream':
                 f = m.download('bkt', 'k%d' % i, F.StreamSink(env), subscribers=[s])
@@ -333,7 +339,7 @@ def sequence(n, k0, o0, k1, o1, k2, o2, k3, o3, x0, x1, x2, cancel_i, rename_fai
         if d is None:
             continue
         tmp = d + '.TMPSUFFX'
-        failed = outs[i] in (1, 3) or futs[i]._coordinator._exception is not None or any(
+        failed = outs[i] in (1, 3, 4) or futs[i]._coordinator._exception is not None or any(
             r.cancelled for r in loop.completed if r.kw.get('recv_filepath') == tmp)
         if outs[i] == 0 and not rename_fails and not (cancel_i == i):
             if d not in fs.files or tmp in fs.files:
@@ -349,17 +355,17 @@ def sequence(n, k0, o0, k1, o1, k2, o2, k3, o3, x0, x1, x2, cancel_i, rename_fai
 
 _P = ('k0: int, o0: int, k1: int, o1: int, k2: int, o2: int, k3: int, o3: int, x0: int, x1: int, x2: int, '
       'cancel_i: int, rename_fails: bool')
-_PRE = ['0 <= k%d <= 3 and 0 <= o%d <= 3' % (i, i) for i in range(4)] + [
+_PRE = ['0 <= k%d <= 3 and 0 <= o%d <= 4' % (i, i) for i in range(4)] + [
     '0 <= x0 <= 2 and 0 <= x1 <= 2 and 0 <= x2 <= 2', '-1 <= cancel_i <= 3']
 OBLIGATIONS = [
     dict(id='C20.1', impl='sequence', params=_P, cases=[(3,)], cases_thorough=[(4,)], pre=_PRE,
          splits=[['k0 == %d' % k, 'o0 == %d' % o, 'k3 == 0', 'o3 == 0', 'not rename_fails', 'cancel_i == -1', 'x1 == 0', 'x2 == 0']
-                 for k in range(4) for o in range(4)] +
+                 for k in range(4) for o in range(5)] +
                 [['k0 == 1', 'o0 == %d' % o, 'k3 == 0', 'o3 == 0', 'rename_fails', 'cancel_i == -1', 'x1 == 0', 'x2 == 0', 'k2 == 3']
                  for o in range(4)] +
                 [['k%d == 1' % i, 'cancel_i == %d' % i, 'o0 == 0', 'k3 == 0', 'o3 == 0', 'not rename_fails', 'x1 == 0', 'x2 == 0', 'k%d == 3' % ((i + 1) % 3)]
                  for i in range(3)],
-         splits_thorough=[['k0 == %d' % k, 'o0 == %d' % o] for k in range(4) for o in range(4)],
+         splits_thorough=[['k0 == %d' % k, 'o0 == %d' % o] for k in range(4) for o in range(5)],
          timeout=(170, 1500),
          bounds='3 (thorough 4) submissions, 4 kinds x 4 outcomes each, symbolic completion order, 2 permits (so a '
                 'submitter blocks), optional user cancel of one transfer, optional failing rename',
